@@ -188,6 +188,7 @@ def strhex2float(x, signed=True, n_word=None, n_frac=None, return_sizes=False):
 
 def str2num(x, signed=True, n_word=None, n_frac=None, base=10, return_sizes=False):
     if isinstance(x, (list, tuple)):
+        x = list(x)     # work on a copy: the caller's container is not modified (and tuples are supported)
         _signed_max = False
         _n_word_max = None
         _n_frac_max = None
